@@ -31,6 +31,14 @@ VALUES = [
     ["D", [[["T", [["f", "nan"], ["i", "1"]]], ["i", "1"]], [["T", [["f", "0.5"], ["i", "2"]]], ["i", "2"]], [["T", [["f", "1.5"], ["i", "0"]]], ["i", "3"]]]],
     ["S", [["T", [["f", "nan"], ["i", "1"]]], ["T", [["f", "0.5"], ["i", "2"]]], ["T", [["f", "1.5"], ["i", "0"]]], ["T", [["f", "0.25"], ["i", "7"]]]]],
     ["D", [[["f", "nan"], ["s", "x"]], [["f", "0.5"], ["s", "y"]], [["f", "1.5"], ["s", "z"]]]],
+    # instances of dict / set subclasses (pickled through __reduce_ex__), with keys that cannot be sorted; decimals (comparing with a
+    # NaN raises an ArithmeticError); keys with one digest whose values cannot be sorted
+    ["D", [[["s", "a"], ["i", "1"]], [["i", "2"], ["i", "3"]]], "UDict"], ["D", [[["s", "zz"], ["i", "1"]], [["i", "5"], ["i", "3"]]], "UDict"], ["D", [], "UDict"],
+    ["D", [[["s", "a"], ["i", "1"]], [["i", "2"], ["i", "3"]]], "defaultdict"], ["D", [[["s", "a"], ["i", "1"]], [["i", "2"], ["i", "4"]]], "defaultdict"],
+    ["D", [[["s", "a"], ["i", "1"]], [["i", "2"], ["i", "3"]]], "OrderedDict"], ["D", [[["s", "a"], ["i", "1"]], [["i", "2"], ["i", "3"]]]],
+    ["S", [["s", "a"], ["s", "b"], ["s", "c"], ["s", "d"]], "USet"], ["F", [["s", "a"], ["s", "b"], ["s", "c"], ["s", "d"]], "UFrozenSet"], ["S", [["s", "a"], ["s", "b"], ["s", "c"], ["s", "d"]]],
+    ["D", [[["d", "NaN"], ["i", "1"]], [["d", "1"], ["i", "2"]]]], ["D", [[["d", "1"], ["i", "1"]], [["d", "2.5"], ["i", "2"]]]], ["d", "1"], ["d", "1.0"],
+    ["D", [[["f", "nan"], ["S", [["i", "1"]]]], [["f", "nan"], ["S", [["i", "2"]]]]]], ["D", [[["f", "nan"], ["D", [[["i", "1"], ["i", "1"]]]]], [["f", "nan"], ["D", [[["i", "2"], ["i", "2"]]]]]]],
 ]
 
 
@@ -183,6 +191,15 @@ TWINS = {
     json.dumps(["L", [["i", "1"], ["i", "2"]]]): [["T", [["i", "1"], ["i", "2"]]]],
     json.dumps(["S", [["i", "1"], ["i", "2"], ["i", "3"]]]): [["F", [["i", "1"], ["i", "2"], ["i", "3"]]]],
     json.dumps(["L", []]): [["T", []], ["D", []]],
+    # instances of dict subclasses with unsortable keys that differ in content, or only in their class
+    json.dumps(["D", [[["s", "a"], ["i", "1"]], [["i", "2"], ["i", "3"]]], "UDict"]): [["D", [[["s", "zz"], ["i", "1"]], [["i", "5"], ["i", "3"]]], "UDict"], ["D", [], "UDict"], ["D", [[["s", "a"], ["i", "1"]], [["i", "2"], ["i", "3"]]]]],
+    json.dumps(["D", [[["s", "zz"], ["i", "1"]], [["i", "5"], ["i", "3"]]], "UDict"]): [["D", [[["s", "a"], ["i", "1"]], [["i", "2"], ["i", "3"]]], "UDict"], ["D", [], "UDict"]],
+    json.dumps(["D", [], "UDict"]): [["D", [[["s", "a"], ["i", "1"]], [["i", "2"], ["i", "3"]]], "UDict"], ["D", []]],
+    json.dumps(["D", [[["s", "a"], ["i", "1"]], [["i", "2"], ["i", "3"]]], "defaultdict"]): [["D", [[["s", "a"], ["i", "1"]], [["i", "2"], ["i", "4"]]], "defaultdict"], ["D", [[["s", "a"], ["i", "1"]], [["i", "2"], ["i", "3"]]], "OrderedDict"]],
+    json.dumps(["D", [[["s", "a"], ["i", "1"]], [["i", "2"], ["i", "4"]]], "defaultdict"]): [["D", [[["s", "a"], ["i", "1"]], [["i", "2"], ["i", "3"]]], "defaultdict"]],
+    json.dumps(["S", [["s", "a"], ["s", "b"], ["s", "c"], ["s", "d"]], "USet"]): [["S", [["s", "a"], ["s", "b"], ["s", "c"], ["s", "d"]]], ["F", [["s", "a"], ["s", "b"], ["s", "c"], ["s", "d"]], "UFrozenSet"]],
+    json.dumps(["d", "1"]): [["d", "1.0"], ["i", "1"], ["f", "1.0"]],
+    json.dumps(["D", [[["f", "nan"], ["S", [["i", "1"]]]], [["f", "nan"], ["S", [["i", "2"]]]]]]): [["D", [[["f", "nan"], ["S", [["i", "1"]]]], [["f", "nan"], ["S", [["i", "3"]]]]]]],
 }
 
 
@@ -201,6 +218,44 @@ def twin_binding(rng, binding):
     else:
         b2[where][key] = rng.choice(TWINS[json.dumps(b2[where][key])])
     return b2
+
+
+EQ_CLASSES = [
+    [["i", "1"], ["f", "1.0"], ["b", 1]], [["i", "0"], ["b", 0], ["f", "0.0"], ["f", "-0.0"]],
+    [["T", [["i", "1"], ["i", "2"]]], ["T", [["i", "1"], ["f", "2.0"]]], ["T", [["b", 1], ["i", "2"]]]],
+    [["T", [["i", "1"]]], ["T", [["f", "1.0"]]], ["T", [["b", 1]]]], [["T", [["f", "0.0"]]], ["T", [["f", "-0.0"]]], ["T", [["i", "0"]]]],
+    [["T", [["s", "k"], ["T", [["i", "0"], ["i", "1"]]]]], ["T", [["s", "k"], ["T", [["b", 0], ["b", 1]]]]]],
+    [["F", [["i", "1"], ["i", "2"]]], ["F", [["f", "1.0"], ["i", "2"]]]],
+]
+
+
+def pair_bindings(rng, binding):
+    """two bindings that place, at two different slots of ONE call, (a) the same value twice and (b) that value and a value
+    that is == to it but of another type ((1, 2) and (1, 2.0); 0.0 and -0.0): anything a key computation remembers per value
+    by equality while it walks one call's arguments confuses the two calls"""
+    import copy
+    slots = [("b", n) for n, v in binding["b"].items() if v[0] == "value"]
+    slots += [("extra_pos", i) for i in range(len(binding["extra_pos"]))] + [("extra_kw", k) for k in binding["extra_kw"]]
+    if len(slots) < 2:
+        return None
+    (w1, k1), (w2, k2) = rng.sample(slots, 2)
+    first, second = rng.sample(rng.choice(EQ_CLASSES), 2)
+    wrap = rng.choice([None, None, "L", "D"])
+
+    def put(b, where, key, val):
+        if wrap == "L":
+            val = ["L", [val, ["s", "w"]]]
+        elif wrap == "D":
+            val = ["D", [[["s", "w"], val]]]
+        if where == "b":
+            b["b"][key] = ("value", val)
+        else:
+            b[where][key] = val
+
+    same, twin = copy.deepcopy(binding), copy.deepcopy(binding)
+    put(same, w1, k1, first), put(same, w2, k2, first)
+    put(twin, w1, k1, first), put(twin, w2, k2, second)
+    return same, twin
 
 
 def all_ignores(sig):
@@ -231,6 +286,10 @@ def build_case(rng, sigs, with_ignore, nfuncs=5, ncalls=40, nproc=1):
         tw = twin_binding(rng, b)
         if tw is not None:
             variants.append(tw)
+        if rng.random() < 0.3:
+            pair = pair_bindings(rng, b)
+            if pair is not None:
+                variants.extend(pair)
         if with_ignore and f["ignore"]:
             # same binding, different value for an ignored parameter: must share the entry
             import copy
